@@ -117,3 +117,54 @@ func specT1Int(b []byte, i int) int32 {
 //@ safety C10
 //@ ensures [C20.op] (op < 256 ==> len(result) == len(buf) + 1 && result[len(buf)] == byte(op)) && (op >= 256 ==> len(result) == len(buf) + 2 && result[len(buf)] == byte(op >> 8) && result[len(buf)+1] == byte(op))
 //@ ensures [C20.op.prefix] forall k :: 0 <= k && k < len(buf) ==> result[k] == buf[k]
+
+// ---------------------------------------------------------------------
+// C06 / C08: charstring cipher (Adobe Type 1 Font Format, section 7.2)
+
+// specCSR(c, i): cipher state after i ciphertext bytes, starting from 4330.
+func specCSR(c []byte, i int) uint16 {
+	if i <= 0 {
+		return 4330
+	}
+	return (uint16(c[i-1])+specCSR(c, i-1))*52845 + 22719
+}
+
+//@ func deobfuscateCharstring
+//@ ensures [C06.cs.short] n < 0 || len(cipher) < n ==> result == nil
+//@ ensures [C06.cs.len] 0 <= n && n <= len(cipher) ==> len(result) == len(cipher) - n
+//@ ensures [C06.cs.bytes] 0 <= n && n <= len(cipher) ==> forall k :: 0 <= k && k < len(result) ==> result[k] == cipher[n+k] ^ byte(specCSR(cipher, n+k) >> 8)
+//@ loop 1 invariant [C06.cs] 0 <= n && n <= len(old(cipher)) && R == specCSR(old(cipher), i) && cap(plain) == len(old(cipher)) - n && ref(plain) != ref(old(cipher)) && ref(plain) != 0
+//@ loop 1 invariant [C06.cs] (i <= n ==> len(plain) == 0) && (i > n ==> len(plain) == i - n)
+//@ loop 1 invariant [C06.cs] forall k :: 0 <= k && k < len(plain) ==> plain[k] == old(cipher)[n+k] ^ byte(specCSR(old(cipher), n+k) >> 8)
+
+// specEnc(r0, iv, plain, i): cipher state after encrypting the first i bytes of
+// iv ++ plain starting from state r0 (the recurrence runs on the cipher bytes).
+func specPP(iv, plain []byte, k int) byte {
+	if k < len(iv) {
+		return iv[k]
+	}
+	return plain[k-len(iv)]
+}
+
+func specEnc(r0 uint16, iv, plain []byte, i int) uint16 {
+	if i <= 0 {
+		return r0
+	}
+	r := specEnc(r0, iv, plain, i-1)
+	var p byte
+	if i-1 < len(iv) {
+		p = iv[i-1]
+	} else {
+		p = plain[i-1-len(iv)]
+	}
+	c := p ^ byte(r>>8)
+	return (uint16(c)+r)*52845 + 22719
+}
+
+//@ func obfuscateCharstring
+//@ safety C10
+//@ ensures [C08.cs.len] len(result) == len(iv) + len(plain)
+//@ ensures [C08.cs.bytes] forall k :: 0 <= k && k < len(result) ==> result[k] == specPP(iv, plain, k) ^ byte(specEnc(4330, iv, plain, k) >> 8)
+//@ loop 1 invariant [C08.cs] len(cipher) == len(iv) + len(plain) && ref(cipher) != ref(iv) && ref(cipher) != ref(plain) && ref(cipher) != 0 && off(cipher) == 0 && R == specEnc(4330, iv, plain, i) && c1 == 52845 && c2 == 22719
+//@ loop 1 invariant [C08.cs] forall k :: 0 <= k && k < i ==> cipher[k] == specPP(iv, plain, k) ^ byte(specEnc(4330, iv, plain, k) >> 8)
+//@ loop 1 invariant [C08.cs] forall k :: i <= k && k < len(cipher) ==> cipher[k] == specPP(iv, plain, k)
